@@ -423,6 +423,69 @@ class NoImportsClause(object):
         names = '+'.join(self.DECLS[i]['name'] for i in case['decls']) or 'values-only'
         return check_set([mod], ['TEST-MIB'], 'C04|no-imports|%s' % names)
 
+class LoadTogether(object):
+    name = 'sets-that-must-load-together'
+    describe = ('module sets whose imports are legal but awkward for a loader, loaded with the REAL pysnmp MibBuilder after compiling: '
+                'two modules that import OID parents from each other; a table whose SEQUENCE type lives in another module; '
+                'identifiers beginning with a digit (the lexer admits them)')
+
+    SETS = {
+        'mutual-imports': {
+            'A-MIB': 'A-MIB DEFINITIONS ::= BEGIN\nIMPORTS enterprises FROM SNMPv2-SMI bTop FROM B-MIB;\n'
+                     'aTop OBJECT IDENTIFIER ::= { enterprises 1 }\naUnderB OBJECT IDENTIFIER ::= { bTop 1 }\nEND\n',
+            'B-MIB': 'B-MIB DEFINITIONS ::= BEGIN\nIMPORTS aTop FROM A-MIB;\nbTop OBJECT IDENTIFIER ::= { aTop 2 }\nEND\n'},
+        'row-type-from-another-module': {
+            'A-MIB': 'A-MIB DEFINITIONS ::= BEGIN\nIMPORTS enterprises, Integer32 FROM SNMPv2-SMI;\n'
+                     'aRoot OBJECT IDENTIFIER ::= { enterprises 1 }\nAEntry ::= SEQUENCE { bIdx Integer32, bVal Integer32 }\nEND\n',
+            'B-MIB': 'B-MIB DEFINITIONS ::= BEGIN\nIMPORTS OBJECT-TYPE, Integer32, enterprises FROM SNMPv2-SMI AEntry FROM A-MIB;\n'
+                     'bTable OBJECT-TYPE SYNTAX SEQUENCE OF AEntry MAX-ACCESS not-accessible STATUS current DESCRIPTION "t" ::= { enterprises 2 }\n'
+                     'bEntry OBJECT-TYPE SYNTAX AEntry MAX-ACCESS not-accessible STATUS current DESCRIPTION "r" INDEX { bIdx } ::= { bTable 1 }\n'
+                     'bIdx OBJECT-TYPE SYNTAX Integer32 MAX-ACCESS not-accessible STATUS current DESCRIPTION "c" ::= { bEntry 1 }\n'
+                     'bVal OBJECT-TYPE SYNTAX Integer32 MAX-ACCESS read-only STATUS current DESCRIPTION "c" ::= { bEntry 2 }\nEND\n'},
+        # not an identifier at all: either the module is refused, or what is generated for it is Python
+        'MAYFAIL-identifier-with-a-circumflex': {
+            'A-MIB': 'A-MIB DEFINITIONS ::= BEGIN\nIMPORTS enterprises FROM SNMPv2-SMI;\n'
+                     'te^st OBJECT IDENTIFIER ::= { enterprises 43 }\nEND\n'},
+        'MAYFAIL-identifier-with-a-backquote-and-brackets': {
+            'A-MIB': 'A-MIB DEFINITIONS ::= BEGIN\nIMPORTS enterprises FROM SNMPv2-SMI;\n'
+                     'te`st[] OBJECT IDENTIFIER ::= { enterprises 43 }\nEND\n'},
+        'identifier-beginning-with-a-digit': {
+            'A-MIB': 'A-MIB DEFINITIONS ::= BEGIN\nIMPORTS enterprises FROM SNMPv2-SMI;\n'
+                     '3com OBJECT IDENTIFIER ::= { enterprises 43 }\na3 OBJECT IDENTIFIER ::= { 3com 1 }\nEND\n'},
+    }
+
+    def blocks(self, tier):
+        return [{}]
+
+    def cases(self, block, tier):
+        for k in sorted(self.SETS):
+            yield {'set': k}
+
+    def run_case(self, case):
+        texts = self.SETS[case['set']]
+        sig = 'C04|load-together|%s' % case['set']
+        parser = env.shared_parser('smiV2')
+        parser.reset()
+        res, written = env.compile_set(texts, sorted(texts), codegen='pysnmp', dialect=parser)
+        bad = [n for n in texts if res.get(n) != 'compiled']
+        if bad and case['set'].startswith('MAYFAIL'):
+            return 'refused', [], 1
+        if bad:
+            return 'notcompiled', [('%s|not-compiled' % sig, repr(dict((k, (str(v), str(getattr(v, 'error', '')))) for k, v in res.items())))], 1
+        vs = []
+        for n in sorted(texts):
+            try:
+                compile(written[n], n, 'exec')
+            except SyntaxError as exc:
+                vs.append(('%s|not-valid-python' % sig, '%s line %s: %s' % (n, exc.lineno, exc.msg)))
+        if vs:
+            return 'invalid-python', vs, 1
+        err, syms = pysnmp_rec.real_load(dict((n, written[n]) for n in texts))
+        if err:
+            vs.append(('%s|set-does-not-load|%s' % (sig, err.split(':')[0]), err[:400]))
+        return 'ok' if not vs else 'bad', vs, 1
+
+
 def _option_histories():
     from mc.checks import C12
 
@@ -436,4 +499,4 @@ def _option_histories():
     return OptionHistories()
 
 
-FAMILIES = [Sequences(), CrossModule(), Identifiers(), TypeChains(), Texts(), AccessWords(), NoImportsClause(), _option_histories()]
+FAMILIES = [Sequences(), CrossModule(), Identifiers(), TypeChains(), Texts(), AccessWords(), NoImportsClause(), LoadTogether(), _option_histories()]
